@@ -160,6 +160,8 @@ func (p *Prog) FuncOpt(pkg, name string) *ssa.Function {
 			ptr = true
 			n = strings.TrimPrefix(n, "(*")
 			n = strings.Replace(n, ")", "", 1)
+		} else if strings.HasPrefix(n, "(") {
+			n = strings.Replace(strings.TrimPrefix(n, "("), ")", "", 1)
 		}
 		parts := strings.SplitN(n, ".", 2)
 		if len(parts) != 2 {
